@@ -15,7 +15,7 @@ PROPS = {
                    'Sampling of an infinite input x configuration space: held-on-what-was-observed, not a proof.',
         level_note='trusts GMP arithmetic, the exact re-check of reference certificates, and the tolerance policy (alarm beyond 10x tolerance)',
         technique='runtime monitoring: exact-arithmetic certificate oracle over executions of the sanitizer-instrumented solver; pairwise-covering + random configurations',
-        stages=lambda t: two_flavour('h_solve', 1500, 6000, 10000, 50000)(t) + [
+        stages=lambda t: two_flavour('h_solve', 1500, 6000, 30000, 150000)(t) + [
             dict(name='netlib-asan', harness='h_solve', flavour='asan', sub='netlib', cases=87 if t == 'quick' else 400, idle_timeout=300),
             dict(name='netlib-opt', harness='h_solve', flavour='opt', sub='netlib', cases=232 if t == 'quick' else 900, idle_timeout=300)],
         minima=lambda t: {'netlib.certificates_checked': 150, 'c01.optimal_checked': 500, 'c01.complete_checked': 300, 'distinct:cfg': 50},
@@ -30,7 +30,7 @@ PROPS = {
                    'primal ray is checked exactly (orientation-free interval disjointness, recession-cone membership). Sampling, not proof.',
         level_note='trusts GMP arithmetic and the exact re-check of reference certificates; float noise floor 1e-9 relative on rays/Farkas',
         technique='runtime monitoring: exact Farkas/ray/verdict oracles over executions under ASan+UBSan; ensure-ray x simplifier cross',
-        stages=lambda t: two_flavour('h_solve', 1500, 6000, 10000, 50000)(t) + [
+        stages=lambda t: two_flavour('h_solve', 1500, 6000, 30000, 150000)(t) + [
             dict(name='netlib-asan', harness='h_solve', flavour='asan', sub='netlib', cases=60 if t == 'quick' else 300, idle_timeout=300),
             dict(name='netlib-opt', harness='h_solve', flavour='opt', sub='netlib', cases=180 if t == 'quick' else 700, idle_timeout=300)],
         minima=lambda t: {'netlib.verdicts_checked': 100, 'netlib.farkas_checked': 30, 'c02.farkas_checked': 100, 'c02.ray_checked': 50, 'c02.verdict_checked': 800},
@@ -50,7 +50,7 @@ PROPS = {
         level_note='trusts GMP arithmetic; reuse is compared with a from-scratch solve of the same configuration and skipped when that solve '
                    'itself contradicts certified truth (that is C01/C02 territory)',
         technique='runtime monitoring: basis-invariant oracle with exact rank test at hooked history points, under ASan+UBSan',
-        stages=lambda t: two_flavour('h_solve', 1200, 5000, 8000, 40000)(t) + [
+        stages=lambda t: two_flavour('h_solve', 1200, 5000, 20000, 100000)(t) + [
             dict(name='exact-forcebasic-asan', harness='h_exact', flavour='asan', cases=300 if t == 'quick' else 1500, crash_markers=['lifting=1', 'iterative_refinement=0']),
             dict(name='exact-forcebasic-opt', harness='h_exact', flavour='opt', cases=1200 if t == 'quick' else 6000, crash_markers=['lifting=1', 'iterative_refinement=0'])],
         minima=lambda t: {'c04g.forcebasic_checked': 20, 'c04.basis_checked': 500, 'c04.setbasis_roundtrip': 300, 'c04.reuse.new-object': 200, 'c04.reuse.same-object': 200,
@@ -68,7 +68,7 @@ PROPS = {
                    'output buffers are canary-padded and sparse index lists compared with the nonzero pattern. Sampling.',
         level_note='residual thresholds 1e-8(1+||B||*||result||); trusts GMP; exactly singular user bases are skipped',
         technique='runtime monitoring: exact residual oracle B*B^-1=I on API outputs, canary buffers, under ASan+UBSan',
-        stages=two_flavour('h_solve', 1200, 5000, 8000, 40000),
+        stages=two_flavour('h_solve', 1200, 5000, 24000, 120000),
         minima=lambda t: {'c05.bases_with_nonzero_scale_exponent': 50, 'c05.sparse_index_checked': 200, 'cases': 1000},
         eval_counter='cases', distinct_set='nontrivial',
         rule='case k -> (LP family incl. badly-scaled, representation = (k/8)%3, scaler = (k/24)%7, persistent scaling = (k/168)%2, other '
@@ -85,7 +85,7 @@ PROPS = {
         level_note='stop/resume equivalence only on instances whose class is certified and tolerance-robust; time-limit stops use real clocks '
                    '(limit 0 / 1e-9), the deterministic virtual-clock hook of the design was not built; exact solves use the default exact configuration only',
         technique='fault enumeration over stop points of real executions: iteration limit and log-driven interrupt injection, basis/status/resume oracles under ASan+UBSan',
-        stages=lambda t: two_flavour('h_solve', 60, 240, 400, 1600)(t) + [memcheck_stage('h_solve', 16, 96)(t)],
+        stages=lambda t: two_flavour('h_solve', 60, 240, 1500, 6000)(t) + [memcheck_stage('h_solve', 16, 96)(t)],
         minima=lambda t: {'memcheck.cases_completed': 14, 'c16.stop_points': 2000, 'c16.iterlimit.stopped_inside_solve': 300, 'c16.interrupt.stopped_inside_solve': 200,
                           'c16.iterlimit.resumed': 500, 'c16.interrupt.resumed': 500, 'c16.basis_after_stop_checked': 500,
                           'c16.exact.stops': 400, 'c16.exact.resumed': 400, 'c16.objlimit.sense.max.upper': 100, 'c16.objlimit.sense.max.lower': 100, 'c16.objlimit.sense.min.upper': 100, 'c16.objlimit.sense.min.lower': 100},
@@ -106,7 +106,7 @@ PROPS = {
                    'modification histories, equality with the exact mirror, independence under rational changes, solves and destruction); '
                    'cross-process comparison not built',
         technique='runtime monitoring: bitwise snapshot comparison of twin/copy objects over seeded API histories under ASan+UBSan, plus valgrind memcheck (uninitialised state carried by copies)',
-        stages=lambda t: two_flavour('h_solve', 1200, 5000, 8000, 32000)(t) + [memcheck_stage('h_solve', 96, 640)(t),
+        stages=lambda t: two_flavour('h_solve', 1200, 5000, 24000, 80000)(t) + [memcheck_stage('h_solve', 96, 640)(t),
                           dict(name='exact-copies-asan', harness='h_exact', flavour='asan', cases=300 if t == 'quick' else 1500),
                           dict(name='exact-copies-opt', harness='h_exact', flavour='opt', cases=1200 if t == 'quick' else 6000)],
         minima=lambda t: {'memcheck.cases_completed': 90, 'c17.twin_solves': 200, 'c17.resolve_after_clearBasis': 150, 'c17.copy_resolve_compared': 150,
@@ -130,7 +130,7 @@ PROPS['C06'] = dict(
                'certified truth. Configurations cross scaler x persistent scaling x simplifier x representation. Sampling of histories.',
     level_note='solve equivalence judged only on instances with certified, tolerance-robust class; small integer data',
     technique='runtime monitoring: sequential reference-model (mirror) check after each API call of seeded histories, under ASan+UBSan',
-    stages=lambda t: two_flavour('h_modify', 300, 1200, 2000, 8000)(t) + [memcheck_stage('h_modify', 48, 320)(t)],
+    stages=lambda t: two_flavour('h_modify', 300, 1200, 6000, 20000)(t) + [memcheck_stage('h_modify', 48, 320)(t)],
     minima=lambda t: {'memcheck.cases_completed': 45, 'c06.solves_compared': 300, 'c06.stale_checks': 3000, 'c06.op.removeRowsReal(perm)': 50, 'c06.op.changeElementReal': 50,
                       'c06.op.removeColRangeReal': 30, 'c06.basis_after_modification_checked': 300},
     eval_counter='cases', distinct_set='nontrivial',
@@ -147,7 +147,7 @@ PROPS['C09'] = dict(
                'changed while persistent scaling is active reads back exactly, over 2-14 solve/modify cycles. Sampling.',
     level_note='magnitudes kept within 2^+-200 so power-of-two scaling cannot overflow; observed exponents are reported (all-zero => inconclusive)',
     technique='runtime monitoring: bitwise power-of-two oracle on bare scalers and mirror/byte comparison at user level, under ASan+UBSan',
-    stages=lambda t: two_flavour('h_modify', 1200, 5000, 8000, 40000)(t) + [memcheck_stage('h_modify', 64, 400)(t)],
+    stages=lambda t: two_flavour('h_modify', 1200, 5000, 24000, 100000)(t) + [memcheck_stage('h_modify', 64, 400)(t)],
     minima=lambda t: {'memcheck.cases_completed': 60, 'c09.bare.nonzero_exponents_seen': 300, 'c09.bare.unscaleLP_checked': 150, 'c09.user.nonzero_exponents_seen': 200,
                       'c09.user.files_compared': 200, 'c09.user.certificates_checked': 200},
     eval_counter='cases', distinct_set='nontrivial',
